@@ -127,6 +127,24 @@ CLAIM = {
             'children of its parameters, the union as an operand of another combine, parents changed afterwards; '
             'JSON / to_dict round trips belong to C17. R14 counts: 300 chunks, 258 result names, 299-combination '
             'grids, 300 choices (oracles), a 260-combination script (correspondence) in every run. '
+            'R15 distinct values that are merely close (magnitudes 1e-9..1e-15, relative gaps 1e-6..1e-9, '
+            'neighbouring doubles, 13th decimal): the model is a function of the exact value - theorems '
+            'setter_takes_effect_for_every_new_value (MISC), eq_is_exact / close_observations_compare_unequal, '
+            'lookup_exact, close_values_stay_distinct, union_grid_spec; tie: a script stream whose objects receive '
+            'close-but-different observations (any doubles for MISC; exact-sum pools for SUM / RATIO) with == between '
+            'them, oracles R15/observations (every update takes effect, statistics relative to the sum of the '
+            'magnitudes, == tells objects apart), combine with DISJOINT close grids (a failed exact look-up must not '
+            'fall back to a neighbour), close fixed parameters rejected, R15/get_pack_indexes. '
+            'R16 argument identity / buffer reuse: theorems merge_depends_on_contents_only, '
+            'operand_refilled_between_merges, self_merge_doubles (addresses on the heap model; arrays inside '
+            'parameters are values in the model, so that part is oracle only); oracles run the history first and '
+            'compute the references afterwards: Result.update with 0-d array buffers refilled in place / the same '
+            'buffer as value and total, one operand Result updated between merges and merged into several '
+            'receivers, a.merge(a), one operand result set refilled between merge_all_results / '
+            'append_all_results calls (replace and in-place), s.merge_all_results(s), combine_simulation_results '
+            'with caller-owned value arrays refilled in place over 2-4 calls (same array for both operands / two '
+            'parameters, same parameter object, same result set in both roles; earlier unions must not change). '
+            'Known finding (R16): an array-valued MISC observation is stored by reference. '
             'Partial: the outer loop of append_all_results (AppendAllConcatStatement) is proved only per name; the '
             'num_skipped_reps tail of merge_all_results is covered by the frame/rejection theorems and one decided '
             'instance; that a passed validation implies the merge loop cannot raise is proved under the hypotheses '
@@ -2284,6 +2302,11 @@ ORACLES = {
 }
 
 
+from harness.props import c06_r1516 as r1516   # noqa: E402  (R15 / R16: close values, buffer reuse)
+
+ORACLES.update(r1516.ORACLES)
+
+
 def run_oracle(ctx, call, case, key=None, nontrivial=True):
     ctx.count((call, key if key is not None else repr(case)), nontrivial)
     try:
@@ -2470,6 +2493,7 @@ def corr_scripts(ctx, drv, name, gen, count, long=False):
             ctx.branch('script:result-names-in-different-order')
         if getattr(im, 'np_updates', 0):
             ctx.branch('script:R1:np-scalars', im.np_updates)
+        r1516.note_script(ctx, im)
         sc = getattr(im, 'scale', (0, 0))
         if max(sc) >= 20:
             ctx.branch('script:R6:scale-1e12')
@@ -2592,6 +2616,7 @@ def correspondence(ctx, quick):
     corr_scripts(ctx, drv, 'combine.script', gen_combine_script, 300 * k, long=not quick)
     corr_scripts(ctx, drv, 'combine.script', lambda rng, long: big_script(rng), 1 if quick else 3)
     ctx.branch('script:R14:260-combinations')
+    r1516.correspondence(ctx, drv, quick)
     corr_trees(ctx, drv, 600 * k, 40 if quick else 120)
     corr_float_stream(ctx, drv, 100 * k)
 
@@ -2844,7 +2869,7 @@ def check(ctx):
                              'R8:params-by-replacement', 'R9:count-numpy', 'R9:index-above-256', 'R2:container-m',
                              'R11:queries', 'R13:derived-objects', 'R14:300-chunks', 'R14:258-result-names',
                              'R14:299-combinations', 'script:R14:260-combinations',
-                             'script:values=big', 'script:values=ulp', 'script:values=mixed']
+                             'script:values=big', 'script:values=ulp', 'script:values=mixed'] + r1516.REQUIRED
     try:
         correspondence(ctx, quick)
     except core.Infra as e:
@@ -2858,6 +2883,7 @@ def check(ctx):
         ctx.required_branches = []
     witnesses(ctx)
     oracles(ctx, quick)
+    r1516.oracles(ctx, quick)
     if not quick:
         exhaustive_small(ctx)
     ctx.notes.append('Result.update / merge / get_result / mean / var (Generated/C06Result.lean) and '
@@ -2883,3 +2909,4 @@ def search(ctx):
         run_oracle(ctx, 'SimulationResults.append_all_results', gen_appendall_case(ctx.rng))
     for _ in range(1500):
         run_oracle(ctx, 'combine_simulation_results', gen_combine_case(ctx.rng))
+    r1516.search(ctx)
